@@ -471,7 +471,7 @@ pub fn random_script(rng: &mut StdRng, id: i64, cfg: Cfg, len: usize, nkeys: usi
                 op: "ins".into(),
                 k,
                 size,
-                mem: cfg.maxmem != 0 && rng.gen_bool(0.95),
+                mem: cfg.maxmem != 0, // macro output never mixes insert / insert_with_memory
                 d: 0,
             });
         } else if r < 0.9 || cfg.ttl == 0 {
